@@ -234,6 +234,63 @@ theorem build_is_parse {φ : Type} [DecidableEq φ] (srt : Bool) (le : φ → φ
       · cases h
       · exact ⟨fs, some sl, hfs, (Except.ok.inj h).symm, hnd⟩
 
+/-! ### the entries as given: spellings of a file name -/
+
+/-- **entries that are equal after normalisation (`pathlib.Path(_)`) are merged**: the names the constructors keep are
+exactly the normalised forms of the given entries, each once, in order of first occurrence — whatever mixture of
+spellings (`str` / `Path`, `dir//f`, `dir/./f`) the filter or the lists contain -/
+theorem dedup_merges_normalisation_equal {ρ φ : Type} [DecidableEq φ] (norm : ρ → φ) (raw : List ρ) :
+    (dedupFirst (raw.map norm)).Nodup ∧ (∀ x, x ∈ dedupFirst (raw.map norm) ↔ ∃ a ∈ raw, norm a = x) ∧
+    ∀ a b, a ∈ raw → b ∈ raw → norm a = norm b →
+      norm a ∈ dedupFirst (raw.map norm) ∧ ((dedupFirst (raw.map norm)).filter fun y => y = norm b).length = 1 := by
+  refine ⟨dedupFirst_nodup _, fun x => by rw [mem_dedupFirst]; simp, fun a b ha _ hab => ?_⟩
+  have hm : norm a ∈ dedupFirst (raw.map norm) := by rw [mem_dedupFirst]; exact List.mem_map_of_mem ha
+  refine ⟨hm, ?_⟩
+  rw [← hab]
+  have hnd := dedupFirst_nodup (raw.map norm)
+  generalize dedupFirst (raw.map norm) = l at hm hnd
+  induction l with
+  | nil => cases hm
+  | cons y ys ih =>
+    rw [List.nodup_cons] at hnd
+    by_cases hy : y = norm a
+    · subst hy
+      simp only [List.filter_cons, decide_true, if_true, List.length_cons]
+      have : ys.filter (fun z => decide (z = norm a)) = [] := by
+        rw [List.filter_eq_nil_iff]; intro z hz; simp only [decide_eq_true_eq]; intro e; subst e; exact hnd.1 hz
+      rw [this]; rfl
+    · have hm' : norm a ∈ ys := by
+        rcases List.mem_cons.mp hm with h | h
+        · exact absurd h.symm hy
+        · exact h
+      simp only [List.filter_cons, hy, decide_false, Bool.false_eq_true, if_false]
+      exact ih hm' hnd.2
+
+/-- the selection over entries as given **is** the selection over their normalised forms (current tree), so every
+theorem about `selectFiles` / `buildH5` applies: no repeated name, ranges partition `0 … len-1` -/
+theorem select_raw_nodup {ρ φ : Type} [DecidableEq ρ] [DecidableEq φ] (srt : Bool) (norm : ρ → φ) (le : φ → φ → Bool)
+    (sel : Selection ρ) (rx : φ → Bool) (fs : List φ) (h : selectFilesRaw srt true true norm le sel rx = .ok fs) :
+    fs.Nodup := by
+  simp only [selectFilesRaw, if_true] at h
+  exact select_nodup srt le _ fs h
+
+theorem build_raw_ranges_contiguous {ρ φ : Type} [DecidableEq ρ] [DecidableEq φ] (srt : Bool) (norm : ρ → φ)
+    (le : φ → φ → Bool) (sel : Selection ρ) (rx : φ → Bool) (nOf : φ → Option Nat) (F : FilterArg) (P : Parsed φ)
+    (h : buildH5Raw srt true true norm le sel rx nOf F = .ok P) : Contiguous 0 P.vols P.data.length := by
+  apply build_ranges_contiguous srt le (sel.mapNorm norm rx) nOf F P
+  simpa only [buildH5Raw, selectFilesRaw, if_true, buildH5] using h
+
+/-- regression (seen-set over the entries as given, cast to `Path` afterwards): one file mentioned in two spellings
+(`norm` identifies them) is kept twice — its slices are in `data` twice, its range once: indices `0 … 2` belong to no
+volume -/
+theorem dedup_on_raw_entries_violates :
+    selectFilesRaw false true false (fun (x : Nat × Nat) => x.2) (fun a b => decide (a ≤ b))
+        ⟨[], some [(0, 5), (1, 5)], none, false, false, fun _ => true⟩ (fun _ => true) = .ok [5, 5] ∧
+    (buildH5Raw false true false (fun (x : Nat × Nat) => x.2) (fun a b => decide (a ≤ b))
+        ⟨[], some [(0, 5), (1, 5)], none, false, false, fun _ => true⟩ (fun _ => true) (fun _ => some 3) .none).toOption.map
+        (fun P => (P.vols, P.data.length)) = some ([(5, 3, 6)], 6) := by
+  constructor <;> rfl
+
 /-- a list of contiguous ranges from 0 to `len` partitions `0 … len-1` -/
 theorem contiguous_partition {φ : Type} {vols : List (φ × Nat × Nat)} {len : Nat} (hc : Contiguous 0 vols len) (i : Nat)
     (hi : i < len) :
@@ -766,6 +823,8 @@ example : [(1 : Nat), 2].Nodup ∧ (1 : Nat) < [(1 : Nat), 2].length ∧ (2 : Na
 example : sheppIndex 4 2 = .ok (2, 2, 2) := by rfl
 example : sheppIndex 4 4 = .error .indexError := by rfl
 example : sheppIndex 4 (-1) = .ok (3, 3, 3) := by rfl
+example : selectFilesRaw true true true (fun (x : Nat × Nat) => x.2) (fun a b => decide (a ≤ b))
+    ⟨[], some [(0, 5), (1, 5), (2, 3)], none, false, false, fun _ => true⟩ (fun _ => true) = .ok [5, 3] := by rfl
 example : fakeTableCurrent.allTrue = true := by decide
 example : (fakeItem toyRng fakeTableCurrent (fun d _ => d) ⟨3, 2, 18⟩ 3 5 0 0).1 = ((6000, some 6000), 0).1 := by decide
 example : sheppTableCurrent.allTrue = true := by decide
